@@ -97,6 +97,29 @@ def c19_cases(tier):
         return None
     yield "dotted stem with -o", dotted
 
+    def symlinked():
+        # the query path given on the command line decides the destination - also when it is a symbolic link to a file elsewhere
+        d, sp, qp = setup("ops")
+        shared = os.path.join(d, "shared")
+        pkg = os.path.join(d, "pkg", "queries")
+        os.makedirs(shared)
+        os.makedirs(pkg)
+        os.rename(qp, os.path.join(shared, "ops.graphql"))
+        link = os.path.join(pkg, "current.graphql")
+        os.symlink(os.path.join("..", "..", "shared", "ops.graphql"), link)
+        res = run_cli(["generate", "--schema-path", sp, "--no-formatting", link])
+        if res["exit"] != 0 or not os.path.exists(os.path.join(pkg, "current.rs")) or os.path.exists(os.path.join(shared, "ops.rs")):
+            return "query path `pkg/queries/current.graphql` (a symlink to shared/ops.graphql): exit %s, pkg/queries holds %s, shared holds %s (expected current.rs beside the given path)" % (
+                res["exit"], sorted(os.listdir(pkg)), sorted(os.listdir(shared)))
+        od = os.path.join(d, "out")
+        os.makedirs(od)
+        res = run_cli(["generate", "--schema-path", sp, "--no-formatting", "--output-directory", od, link])
+        if res["exit"] != 0 or sorted(os.listdir(od)) != ["current.rs"]:
+            return "symlinked query path with -o DIR: exit %s, directory holds %s (expected current.rs)" % (res["exit"], sorted(os.listdir(od)))
+        # a relative path given from another working directory
+        return None
+    yield "symlinked query path", symlinked
+
     def reuse():
         d, sp, qp = setup()
         od = os.path.join(d, "out")
